@@ -160,6 +160,35 @@ Theorem C13_monitor_reflects : forall node_hash decode decode_account header r,
 Proof. exact content_verdict_iff. Qed.
 Print Assumptions C13_monitor_reflects.
 
+(* ---- histories: ONE validator instance, ONE storage, any sequence of items, any sequence of header-source answers ----
+   An event = (what the header source does during this step: a function block hash -> root | error, so "serve by hash",
+   "fail this lookup" and "serve a wrong header" are all instances; the content id; the item).
+   The verdict of the step that follows ANY prefix of earlier steps is the verdict of that item alone ... *)
+Theorem C13_history_step_independent : forall node_hash decode decode_account pre ev post st,
+  nth_error (map fst (snd (run_history node_hash decode decode_account st (pre ++ ev :: post)))) (length pre)
+  = Some (validate_content node_hash decode decode_account (ev_header ev) (ev_req ev)).
+Proof. exact history_step_independent. Qed.
+Print Assumptions C13_history_step_independent.
+
+(* ... hence the accept-iff characterisation holds at every step of every history, against the header answer of THAT step *)
+Theorem C13_history_accept_iff : forall node_hash decode decode_account evs st,
+  Forall2 (fun ev o => fst o = Ok tt <-> content_ok node_hash decode decode_account (ev_header ev) (ev_req ev))
+          evs (snd (run_history node_hash decode decode_account st evs)).
+Proof. exact history_accept_iff. Qed.
+Print Assumptions C13_history_accept_iff.
+
+(* ... and whatever the storage holds after the history was either there before or is the final node / code of an item
+   that satisfied the chain predicate in the step that stored it *)
+Theorem C13_history_store : forall node_hash decode decode_account evs vs s st' os,
+  run_history node_hash decode decode_account (vs, s) evs = (st', os) ->
+  forall id v, store_get (snd st') id = Some v ->
+    store_get s id = Some v \/
+    exists ev, In ev evs /\ ev_id ev = id /\
+               content_ok node_hash decode decode_account (ev_header ev) (ev_req ev) /\
+               put node_hash (ev_req ev) = Ok v /\ expected_stored (ev_req ev) = Some v.
+Proof. exact history_store. Qed.
+Print Assumptions C13_history_store.
+
 (* what "references along the path" means, case by case (ref_along is the definition used in chain / node_proof_ok):
    a hash references itself; a branch passes the path's first nibble to that child; an extension strips its key from the
    path; a leaf (key ending in the terminator 16), a value, nil and an empty-key short node reference nothing *)
